@@ -196,6 +196,15 @@ class Record:
         self.name = node.get('name')
         self.id = node['id']
         self.fields = [Field(c, self) for c in node.get('inner', []) if c.get('kind') == 'FieldDecl']
+        # member functions of the nested record that have a body (inlined on the object they are called on)
+        self.methods = {}
+        for c in node.get('inner', []):
+            if c.get('kind') == 'CXXMethodDecl' and not c.get('isImplicit') and any(x.get('kind') == 'CompoundStmt' for x in c.get('inner', [])):
+                self.methods[c['id']] = c
+            elif c.get('kind') == 'FunctionTemplateDecl':
+                for f in c.get('inner', []):
+                    if f.get('kind') == 'CXXMethodDecl' and any(x.get('kind') == 'CompoundStmt' for x in f.get('inner', [])):
+                        self.methods[f['id']] = f
 
 
 class ClassModel:
